@@ -18,13 +18,14 @@ import (
 // well-formed UTF-8 sequence, 0x110000+b for a byte b outside one (c15Units; the inverse
 // is sxStr), so strings are compared byte-exactly also where they are not valid UTF-8.
 type c15In struct {
-	S    string `json:"s"`              // the string handed to NewJid
-	X    string `json:"x,omitempty"`    // hex of the bytes of S when S is not valid UTF-8 (JSON cannot carry it)
-	Kind string `json:"kind"`           // raw | parts | bad
-	Form string `json:"form,omitempty"` // parts: ldr ld dr d; bad: the reason it is malformed
-	L    string `json:"l,omitempty"`    // parts: the triple the string was built from
-	D    string `json:"d,omitempty"`
-	R    string `json:"r,omitempty"`
+	S    string    `json:"s"`              // the string handed to NewJid
+	X    string    `json:"x,omitempty"`    // hex of the bytes of S when S is not valid UTF-8 (JSON cannot carry it)
+	Kind string    `json:"kind"`           // raw | parts | bad | hist
+	Form string    `json:"form,omitempty"` // parts: ldr ld dr d; bad: the reason it is malformed; hist: the family
+	L    string    `json:"l,omitempty"`    // parts: the triple the string was built from
+	D    string    `json:"d,omitempty"`
+	R    string    `json:"r,omitempty"`
+	H    []c15Step `json:"h,omitempty"` // hist: several calls in one process (c15h.go); S is unused
 }
 
 type c15 struct{}
@@ -35,7 +36,7 @@ func (c15) ID() string    { return "C15" }
 func (c15) RunFn() string { return "run_C15" }
 func (c15) Workers() int  { return 8 }
 func (c15) Rule() string {
-	return "every string of length <= 4 over {a @ / space \" & U+00A0} (2801, exhaustive) + every string of <= 3 pieces over {a @ / 0x80 0xE2,0x80 0xC0,0xAF} (259, exhaustive; bytes outside well-formed UTF-8) + random (40% well-formed [l@]d[/r] built from triples over the accepted classes incl. non-ASCII and astral, resource with '/' '@' spaces; 30% built malformed: empty, empty local, empty domain, every Unicode space and every forbidden character (local part: the eight of RFC 7622 3.3.1; domain: @ / ' \" < > &) at a random position of local part or domain; 30% unstructured strings over ASCII, all rejected characters, all Unicode spaces, non-ASCII, astral); one case in six of each kind additionally gets 1-3 ill-formed UTF-8 pieces (lone continuation and lead bytes, 0xC0/0xC1/0xF5-0xFF, truncated sequences incl. the prefix of U+2028, overlong '/' and '@', encoded surrogates) spliced in at random places, compared byte-exactly; strings with a '/' before the first '@' are run but projected to a constant on both sides (outside the property); distinct = distinct input string; non-trivial = at least 3 code points and at least one '@' or '/'"
+	return "every string of length <= 4 over {a @ / space \" & U+00A0} (2801, exhaustive) + every string of <= 3 pieces over {a @ / 0x80 0xE2,0x80 0xC0,0xAF} (259, exhaustive; bytes outside well-formed UTF-8) + random (40% well-formed [l@]d[/r] built from triples over the accepted classes incl. non-ASCII and astral, resource with '/' '@' spaces; 30% built malformed: empty, empty local, empty domain, every Unicode space and every forbidden character (local part: the eight of RFC 7622 3.3.1; domain: @ / ' \" < > &) at a random position of local part or domain; 30% unstructured strings over ASCII, all rejected characters, all Unicode spaces, non-ASCII, astral); one case in six of each kind additionally gets 1-3 ill-formed UTF-8 pieces (lone continuation and lead bytes, 0xC0/0xC1/0xF5-0xFF, truncated sequences incl. the prefix of U+2028, overlong '/' and '@', encoded surrogates) spliced in at random places, compared byte-exactly; strings with a '/' before the first '@' are run but projected to a constant on both sides (outside the property); HISTORIES (several calls in one process; every call judged on its own string alone, and equal strings must show equal results): parse s, assign to a field of the returned Jid, parse s again - for 7 address shapes x 3 fields x 3 values exhaustively, and random (reparse after 1-3 rounds of assignments; the Full()/Bare() renderings parsed again after the holder reduced/redirected its Jid; 6-12 parses and assignments interleaved over 2-7 strings incl. each address's bare form and a malformed one; 2-6 goroutines x 2-4 rounds parsing the same and different strings while assigning to their own results, before and after sequential parses); each history uses strings of its own (domain label); distinct = distinct input string or history; non-trivial = at least 3 code points and at least one '@' or '/'"
 }
 
 // ---- the property's character classes, written independently of /repo ----
@@ -367,12 +368,17 @@ func (c15) Gen(r *rand.Rand, tier string) []interface{} {
 		}
 	}
 	out = append(out, c15In{S: "", Kind: "bad", Form: "empty"})
+	out = append(out, c15GenHist(r, tier)...) // histories: several calls in one process
 	return out
 }
 
 func (c15) Decode(raw json.RawMessage) (interface{}, error) {
 	var in c15In
 	err := json.Unmarshal(raw, &in)
+	if err == nil && (in.Kind == "hist" || (in.Kind == "" && len(in.H) > 0)) {
+		in.Kind = "hist"
+		return in, c15CheckHist(in.H)
+	}
 	if err == nil && in.Kind == "" {
 		in.Kind = "raw"
 	}
@@ -403,6 +409,9 @@ func c15Res(j *stanza.Jid, err error) Sx {
 
 func (c15) Run(inp interface{}) Sx {
 	in := inp.(c15In)
+	if in.Kind == "hist" {
+		return c15RunHist(in.H)
+	}
 	j, err := stanza.NewJid(in.S)
 	if c15SlashBeforeAt(in.S) {
 		// outside the property (RFC 7622 and the library legitimately differ): the code is
@@ -423,7 +432,12 @@ func (c15) Run(inp interface{}) Sx {
 		c15Res(stanza.NewJid(full)), c15Res(stanza.NewJid(bare)))
 }
 
-func (c15) Input(inp interface{}) Sx { return c15Units(inp.(c15In).S) }
+func (c15) Input(inp interface{}) Sx {
+	if in := inp.(c15In); in.Kind == "hist" {
+		return c15HistInput(in.H)
+	}
+	return c15Units(inp.(c15In).S)
+}
 
 // ---- direct oracle: the three clauses of the property on the implementation alone ----
 func sxStr(x Sx) string { // inverse of c15Units
@@ -440,6 +454,9 @@ func sxStr(x Sx) string { // inverse of c15Units
 
 func (c15) Oracle(inp interface{}, obs Sx) (string, string) {
 	in := inp.(c15In)
+	if in.Kind == "hist" {
+		return c15HistOracle(in.H, obs)
+	}
 	if len(obs.L) == 1 && obs.L[0].Z == 2 && c15SlashBeforeAt(in.S) {
 		return "", "" // outside the property
 	}
@@ -512,6 +529,9 @@ func c15Show(x Sx) string {
 
 func (c15) Key(inp interface{}) (string, bool) {
 	in := inp.(c15In)
+	if in.Kind == "hist" {
+		return c15HistKey(in)
+	}
 	hist("kind:" + in.Kind)
 	if in.Form != "" {
 		hist("form:" + in.Kind + "-" + in.Form)
